@@ -2,7 +2,7 @@
    The model (Model/TarMeta.v) is tied to the Go code by the correspondence check; what no
    theorem covers: the byte level of archive/tar, the compressor programs, the kernel's
    lstat/readlink/xattr calls (validated by read-back only). *)
-From LC Require Import Lib.Bytes Lib.Fields Gen.Consts Model.TarMeta Proofs.TarMetaP Cases.C07 Proofs.C07P.
+From LC Require Import Lib.Bytes Lib.Fields Gen.Consts Model.TarMeta Model.OutFile Proofs.TarMetaP Proofs.OutFileP Cases.C07 Proofs.C07P.
 From Coq Require Import ZArith.
 Import C07.
 Open Scope N_scope.
@@ -24,7 +24,7 @@ Print Assumptions C07_refuted_1.
 (* the hypotheses of C07_holds are satisfiable by a non-trivial case (absent directory with a
    symbolic mod=, block device 8:300 with an xattr, 300-byte symlink) *)
 Theorem C07_domain_inhabited : C07.wf example_case = true /\ C07.kf example_case = 0
-  /\ (exists hs, fst (fst (C07.model example_case)) = ROutput hs /\ length hs = 3%nat).
+  /\ (exists hs, C07.o_run (C07.model example_case) = ROutput hs /\ length hs = 3%nat).
 Proof. exact example_wf. Qed.
 Print Assumptions C07_domain_inhabited.
 
@@ -156,3 +156,41 @@ Theorem C07_compress_same : forall (filter unfilter : N -> bytes -> bytes),
   forall m archive, m <> 0 -> unfilter m (write_tar_file filter m archive) = write_tar_file filter 0 archive.
 Proof. exact compress_same. Qed.
 Print Assumptions C07_compress_same.
+
+(* output_exact: the file named by -o after a run is exactly the bytes the run wrote (the
+   archive, or what the compressor made of it) -- for EVERY previous content of the path (none,
+   shorter, longer, an earlier stage), every archive and every way the output is cut into
+   write(2) calls.  This is the clause [out_ok] of the predicate on the model side; the file of a
+   run to an existing path is the file of the run to a fresh path *)
+Theorem C07_output_exact : forall (p : prior) (chunks : list bytes), out_file p chunks = concat chunks.
+Proof. exact out_file_exact. Qed.
+Print Assumptions C07_output_exact.
+
+Theorem C07_output_independent : forall (p p' : prior) (chunks chunks' : list bytes),
+  concat chunks = concat chunks' -> out_file p chunks = out_file p' chunks'.
+Proof. exact out_file_chunking. Qed.
+Print Assumptions C07_output_independent.
+
+(* with the compressor of the Section law: whatever the path held, the file decompresses to the
+   archive that -compress none writes to a fresh path *)
+Theorem C07_output_compress_same : forall (filter unfilter : N -> bytes -> bytes),
+  (forall m b, unfilter m (filter m b) = b) ->
+  forall (p : prior) m archive, m <> 0 ->
+    unfilter m (out_file p [write_tar_file filter m archive]) = out_file None [write_tar_file filter 0 archive].
+Proof. exact output_compress_same. Qed.
+Print Assumptions C07_output_compress_same.
+
+(* what the truncating open buys: opened without O_TRUNC an existing file keeps everything it had
+   beyond the new output, so the result is the new output iff the old file was not longer *)
+Theorem C07_output_needs_trunc : forall (old : bytes) (chunks : list bytes),
+  write_out OCreateKeep (Some old) chunks = concat chunks ++ skipn (length (concat chunks)) old
+  /\ (write_out OCreateKeep (Some old) chunks = concat chunks <-> (length old <= length (concat chunks))%nat).
+Proof. exact output_needs_trunc. Qed.
+Print Assumptions C07_output_needs_trunc.
+
+(* the lengths the cases carry are the lengths of that byte-level model *)
+Theorem C07_output_len : forall (p : prior) (chunks : list bytes),
+  N.of_nat (length (out_file p chunks)) = out_len (plen p) (N.of_nat (length (concat chunks)))
+  /\ out_len (plen p) (N.of_nat (length (concat chunks))) = N.of_nat (length (concat chunks)).
+Proof. exact output_len. Qed.
+Print Assumptions C07_output_len.
